@@ -73,6 +73,15 @@ def obligations(prop, log, tier="quick"):
             log.append("tables: " + note)
     except Exception as e:  # the extractor never raises an alarm by itself
         log.append("tables: extractor failed (%s: %s); committed tables used" % (type(e).__name__, e))
+    # regenerate the translated leaf functions (Phil/Generated/Translated.lean; equalities in Phil.Props.Translated)
+    try:
+        import translate
+        note = translate.regenerate()
+        if note:
+            log.append("translate: " + note)
+            print("note: translate: " + note)
+    except Exception as e:  # the translator never raises an alarm by itself
+        log.append("translate: translator failed (%s: %s); committed definitions used" % (type(e).__name__, e))
     rc, out = sh(["lake", "build", "drv"] + modules, cwd=LEAN, timeout=1500)
     if rc != 0:
         log.append(out[-3000:])
